@@ -195,6 +195,12 @@ func (m *MTProto) makeRequest(data tl.Object, expectedTypes ...reflect.Type) (an
 	case *objects.RpcError:
 		realErr := RpcErrorToNative(r)
 
+		if m.serviceModeActivated {
+			// key exchange is in progress: rpc_error instead of the expected answer is a reason to abandon it, there
+			// is no session yet which could be migrated to another data center
+			return nil, realErr
+		}
+
 		err = m.tryToProcessErr(realErr.(*ErrResponseCode))
 		if err != nil {
 			return nil, err
